@@ -359,6 +359,15 @@ class Emitter:
         brace = masked.find('{', parc)
         close = match_close(masked, brace)
         head = text[:brace].rstrip()
+        # R10: Verus rejects wildcard parameters `_: T`; an unused parameter is given a name
+        if re.search(r'[(,]\s*_\s*:', head[par:]):
+            cnt = [0]
+
+            def nm(mm):
+                cnt[0] += 1
+                return mm.group(1) + '_unused%d:' % cnt[0]
+            head = head[:par] + re.sub(r'([(,]\s*)_\s*:', nm, head[par:])
+            self.rules.add('R10')
         body = text[brace:close + 1]
         tail = text[close + 1:]
         if contract.returns:
